@@ -313,6 +313,18 @@ def _store_array(
     else:
         # treat a region as an offset within the target store
         shape = target.shape
+        if len(region) != len(shape) or not all(
+            isinstance(sl, slice) and sl.step in (None, 1) for sl in region
+        ):
+            raise ValueError(
+                f"Region {region} must have one slice with unit step for each of the {len(shape)} dimensions of the target"
+            )
+        if any(
+            (sl.start is not None and sl.start < 0)
+            or (sl.stop is not None and sl.stop < 0)
+            for sl in region
+        ):
+            raise ValueError(f"Region {region} must not have negative bounds")
         # for a sharded target the unit that a task must write whole is the shard
         chunks = getattr(target, "shards", None) or target.chunks
         for i, (sl, cs) in enumerate(zip(region, chunks)):
